@@ -124,3 +124,142 @@ Section Closure.
       + eapply initial_tree_leaf; [exact DB|exact QN|exact LF|exact FD'].
   Qed.
 End Closure.
+
+(* ---------- the closure as an invariant of every reachable configuration ---------- *)
+Lemma prefix_cases : forall (a b : path),
+  (exists q, b = a ++ q) \/ (exists q, q <> [] /\ a = b ++ q) \/ (~ is_prefix a b /\ ~ is_prefix b a).
+Proof.
+  induction a as [|x a IH]; intros b.
+  - left. exists b. reflexivity.
+  - destruct b as [|y b].
+    + right. left. exists (x :: a). split; [discriminate|reflexivity].
+    + destruct (Nat.eq_dec x y) as [->|NE].
+      * destruct (IH b) as [[q ->]|[[q [Q ->]]|[N1 N2]]].
+        -- left. exists q. reflexivity.
+        -- right. left. exists q. split; [exact Q|reflexivity].
+        -- right. right. split; intros [q E]; injection E as E; [apply N1|apply N2]; exists q; exact E.
+      * right. right. split; intros [q E]; injection E as E _; congruence.
+Qed.
+
+Lemma sub_update_prefix : forall p f g n q sc,
+  sub f (p ++ n :: q) = Some sc ->
+  exists x, sub (update_at f (p ++ n :: q) g) p = Some x /\ f_get x n <> None.
+Proof.
+  induction p as [|m p IH]; intros f g n q sc H; cbn [app] in *.
+  - exists (update_at f (n :: q) g). split; [reflexivity|]. cbn [update_at].
+    rewrite (f_get_map_upd f n n (fun c => update_at c q g)), Nat.eqb_refl.
+    cbn [sub] in H. destruct (f_get f n); [discriminate|discriminate].
+  - cbn [sub] in H. destruct (f_get f m) as [ch|] eqn:G; [|discriminate].
+    destruct (IH ch g n q sc H) as (x & Hx & Hn). exists x. split; [|exact Hn].
+    cbn [update_at sub]. rewrite (f_get_map_upd f m m (fun c => update_at c (p ++ n :: q) g)), Nat.eqb_refl, G. exact Hx.
+Qed.
+
+Lemma sub_chain_some : forall r bottom y x, sub (chain_tree r bottom) y = Some x -> is_prefix y r \/ is_prefix r y.
+Proof.
+  induction r as [|n r IH]; intros bottom y x H.
+  - right. exists y. reflexivity.
+  - destruct y as [|m y]; [left; exists (n :: r); reflexivity|].
+    cbn [chain_tree sub f_get t_name t_children] in H. destruct (Nat.eqb n m) eqn:E; [|discriminate].
+    apply Nat.eqb_eq in E. subst m. destruct (IH _ _ _ H) as [[q ->]|[q ->]].
+    + left. exists q. reflexivity.
+    + right. exists q. reflexivity.
+Qed.
+
+Definition depth_ok (hm : hmachine) : Prop :=
+  forall p d, find_def (hm_states hm) p = Some d -> sd_depth d <= def_depth_bound.
+
+Section Invariant.
+  Variable hm : hmachine.
+  Local Opaque def_depth_bound.
+
+  (* every leaf of the configuration is a state without an (existing) initial child *)
+  Definition closed (f : forest) : Prop :=
+    forall p d, p <> [] -> sub f p = Some [] -> defs_at hm p = Some d -> no_init d.
+
+  Lemma resolve_closed f sc dst dd r :
+    depth_ok hm -> reg hm f -> closed f ->
+    find_def (scope_children hm sc) dst = Some dd -> resolve f sc dst dd = Some r -> closed (r_new r).
+  Proof.
+    intros DK RG CL FD R p d PN LF DA.
+    assert (ND : dst <> []) by (intros ->; destruct (scope_children hm sc); discriminate).
+    unfold resolve in R.
+    destruct (split_active f sc dst) as [root rest] eqn:SA.
+    destruct (sub f (sc ++ root)) as [scoped|] eqn:SB; [|discriminate].
+    assert (exists cur, sub f sc = Some cur) as [cur S].
+    { rewrite sub_app in SB. destruct (sub f sc); [eauto|discriminate]. }
+    destruct (split_active_spec f sc dst root rest cur ND S SA) as (E & RN & _ & _).
+    assert (SCR : sc = [] \/ exists ds, find_def (hm_states hm) sc = Some ds).
+    { destruct sc as [|s0 sc']; [now left|right]. apply RG; [discriminate|]. unfold active. now rewrite S. }
+    pose proof (scope_children_find hm sc dst dd SCR ND FD) as FDA.
+    assert (DB : sd_depth dd <= def_depth_bound) by (eapply DK; exact FDA).
+    injection R as <-. cbn [r_new] in LF.
+    destruct rest as [|d0 rt]; [congruence|]. cbn [hd tl] in *.
+    set (bottom := initial_tree def_depth_bound dd) in *.
+    destruct (prefix_cases (sc ++ root) p) as [[x ->]|[[q [Q EQ]]|[N1 N2]]].
+    - (* at or below the base *)
+      rewrite (sub_update_below _ _ _ _ _ SB) in LF.
+      destruct x as [|k y].
+      + cbn [sub] in LF. injection LF as LF.
+        destruct (Nat.ltb 1 (length scoped)); [|discriminate].
+        destruct scoped as [|[j c0] r0]; cbn in LF; [discriminate|]. destruct (Nat.eqb j d0); discriminate.
+      + destruct (Nat.eq_dec k d0) as [->|NK].
+        * assert (SUBY : sub (chain_tree rt bottom) y = Some []).
+          { destruct (Nat.ltb 1 (length scoped)).
+            - cbn [sub] in LF. rewrite f_get_f_set, Nat.eqb_refl in LF. exact LF.
+            - cbn [chain_tree sub f_get t_name t_children] in LF. rewrite Nat.eqb_refl in LF. exact LF. }
+          destruct (sub_chain_some _ _ _ _ SUBY) as [[z ->]|[q ->]].
+          -- rewrite sub_chain_prefix in SUBY. injection SUBY as X. apply chain_tree_nil in X as [-> BN].
+             rewrite app_nil_r in E.
+             replace ((sc ++ root) ++ d0 :: y) with (sc ++ dst) in DA by (rewrite <- E, <- app_assoc; reflexivity).
+             unfold defs_at in DA. rewrite FDA in DA. injection DA as <-.
+             eapply initial_tree_nil; [exact DB|exact BN].
+          -- rewrite sub_chain_below in SUBY. destruct q as [|q0 q'].
+             ++ cbn [sub] in SUBY. injection SUBY as BN. rewrite app_nil_r in DA.
+                replace ((sc ++ root) ++ d0 :: rt) with (sc ++ dst) in DA by (rewrite <- E, <- app_assoc; reflexivity).
+                unfold defs_at in DA. rewrite FDA in DA. injection DA as <-.
+                eapply initial_tree_nil; [exact DB|exact BN].
+             ++ replace ((sc ++ root) ++ d0 :: rt ++ q0 :: q') with ((sc ++ dst) ++ q0 :: q') in DA
+                  by (rewrite <- E, <- !app_assoc; reflexivity).
+                unfold defs_at in DA. rewrite (find_def_app (sc ++ dst) _ (q0 :: q') dd) in DA;
+                  [|destruct sc; [exact ND|discriminate]|discriminate|exact FDA].
+                eapply (initial_tree_leaf def_depth_bound dd (q0 :: q')); [exact DB|discriminate|exact SUBY|exact DA].
+        * destruct (Nat.ltb 1 (length scoped)).
+          -- cbn [sub] in LF. rewrite f_get_f_set in LF. apply Nat.eqb_neq in NK. rewrite NK in LF.
+             apply (CL ((sc ++ root) ++ k :: y) d PN); [|exact DA]. rewrite sub_app, SB. exact LF.
+          -- cbn [chain_tree sub f_get t_name t_children] in LF. apply Nat.eqb_neq in NK. rewrite (Nat.eqb_sym d0 k), NK in LF.
+             discriminate.
+    - (* a strict prefix of the base keeps a child *)
+      destruct q as [|n q']; [congruence|]. rewrite EQ in SB, LF.
+      destruct (sub_update_prefix p f (fun _ => if Nat.ltb 1 (length scoped) then f_set scoped d0 (chain_tree rt bottom)
+                                                else chain_tree (d0 :: rt) bottom) n q' scoped SB) as (x & Hx & Hn).
+      rewrite Hx in LF. injection LF as ->. cbn in Hn. congruence.
+    - rewrite (sub_update_other _ _ _ _ N1 N2) in LF. exact (CL p d PN LF DA).
+  Qed.
+
+  (* the configuration add_model puts a model in is closed *)
+  Lemma initial_config_closed ini d :
+    depth_ok hm -> find_def (hm_states hm) ini = Some d -> closed (chain_tree ini (initial_tree def_depth_bound d)).
+  Proof.
+    intros DK FD p d' PN LF DA. pose proof (DK _ _ FD) as DB.
+    assert (NI : ini <> []) by (intros ->; destruct (hm_states hm); discriminate).
+    destruct (sub_chain_some _ _ _ _ LF) as [[z ->]|[q ->]].
+    - rewrite sub_chain_prefix in LF. injection LF as X. apply chain_tree_nil in X as [-> BN].
+      rewrite app_nil_r in FD. unfold defs_at in DA. rewrite FD in DA. injection DA as <-.
+      eapply initial_tree_nil; [exact DB|exact BN].
+    - rewrite sub_chain_below in LF. destruct q as [|q0 q'].
+      + cbn [sub] in LF. injection LF as BN. rewrite app_nil_r in DA. unfold defs_at in DA. rewrite FD in DA. injection DA as <-.
+        eapply initial_tree_nil; [exact DB|exact BN].
+      + unfold defs_at in DA. rewrite (find_def_app ini _ (q0 :: q') d) in DA; [|exact NI|discriminate|exact FD].
+        eapply (initial_tree_leaf def_depth_bound d (q0 :: q')); [exact DB|discriminate|exact LF|exact DA].
+  Qed.
+
+  (* C02: closure is an invariant of every reachable configuration *)
+  Theorem reach_closed f f' :
+    wf_defs hm = true -> depth_ok hm -> reach hm f f' -> reg hm f -> closed f -> closed f'.
+  Proof.
+    intros W DK R. induction R as [|f sc dst dd r f' FD RS R IH]; intros RG CL; [exact CL|].
+    apply IH.
+    - eapply resolve_reg; eauto.
+    - eapply resolve_closed; eauto.
+  Qed.
+End Invariant.
